@@ -22,7 +22,7 @@ from specs import dbmodel, depscheck
 from specs.dbmodel import DBWorld, S1, BASE
 
 chk = Check('C13', 'symbolic execution of rustc MIR (mirsym) + z3; candidate list compared with the documented order per path class; '
-                   'native replay')
+                   'native replay', need_bin=True)
 eng = chk.eng
 dbmodel.install_stubs(eng)
 MAXNAME = 6 if chk.thorough() else 4
@@ -308,6 +308,99 @@ def find_do_file_obligation():
 
 
 # ---------------------------------------------------------------------------------------------- replay / validation
+# ---------------------------------------------------------------------------------------------- redo-whichdo
+def whichdo_obligation():
+    """redo-whichdo <target> prints exactly the candidates considered, in order, up to and including the first existing one
+    (relative to the current directory), succeeds iff one exists"""
+    from specs import depsobl
+    st = {}
+    TARGETS = [b'x.y.z', b'd/x.c', b'../q/t.o', b'd/../e/n']
+
+    def run():
+        t = TARGETS[eng.choose(len(TARGETS), 'target')]
+        w = depsobl.CmdWorld(eng, 5, [b'redo-whichdo', t])
+        eng.world = w
+        w.printed = []
+        w.current_dir = lambda e: ok(Vec(list(b'/p/w'), 'PathBuf'))
+        w.canonicalize = lambda e, p_: err(dbmodel_io_error('NotFound'))
+        asked = []
+        st.update(w=w, t=t, asked=asked)
+
+        def exists(e, path):
+            name = bytes(deref_all(path).items)
+            k = e.choose(2, 'exists %s' % name.decode())
+            asked.append((name, k == 1))
+            return k == 1
+        w.exists = exists
+        depsobl.install_cmd_stubs(eng, 5)
+        for n in ('Env::init_no_state', 'redo::Env::init_no_state'):
+            eng.stubs[n] = eng.stubs['Env::init']
+        depsobl._install_print(eng)
+        return eng.call('whichdo::run', [], None, None)
+
+    def judge(outcome, val, path):
+        import posixpath
+        w, t, asked = st['w'], st['t'], st['asked']
+        if outcome != 'ok':
+            return {'role': 'whichdo:' + outcome, 'kind': 'none', 'what': 'redo-whichdo: %s %s' % (outcome, getattr(val, 'msg', val)), 'witness': {}}
+        full = posixpath.normpath('/p/w/' + t.decode()).encode()
+        cands = [c['do_dir'].rstrip(b'/') + b'/' + c['do_file'] for c in py_oracle(full)]
+        found = [a for a, ex in asked if ex]
+        want = []
+        for c in cands:
+            want.append(c)
+            if found and c == found[0]:
+                break
+        rel = [posixpath.relpath(c.decode(), '/p/w') for c in want]
+        got = None if any(x is None for x in w.printed) else [x.rstrip('\n') for x in w.printed]
+        chk.goal('whichdo: nothing exists', not found)
+        chk.goal('whichdo: a default.do in a parent directory is found', bool(found) and len(asked) > 2)
+        bad = None
+        if [a for a, _ in asked] != want:
+            bad = 'probes %r, the documented candidates are %r' % ([a.decode() for a, _ in asked], [c.decode() for c in want])
+        elif got != rel:
+            bad = 'prints %r, the candidates considered are %r' % (got, rel)
+        elif (val.var == 'Ok') != bool(found):
+            bad = 'exit status does not say whether a script was found (%r)' % (val.var,)
+        if bad:
+            return {'role': 'whichdo-listing', 'kind': 'whichdo', 'what': 'redo-whichdo %s: %s' % (t.decode(), bad),
+                    'witness': {'target': t.decode(), 'existing': found[0].decode() if found else None, 'expect': rel, 'expect_ok': bool(found)}}
+        return None
+
+    chk.explore('redo-whichdo lists the candidates considered', run, judge)
+
+
+def dbmodel_io_error(kind):
+    from mirsym.summaries.env import io_error
+    return io_error(kind)
+
+
+WHICHDO_SCENARIO = r"""
+set -u
+mkdir -p p/w p/q p/e p/w/d && cd p/w
+@MK@
+redo-whichdo '@TARGET@' > ../../which.out 2>../../which.err; echo "rc=$?"
+sed 's/^/LINE=/' ../../which.out
+"""
+
+
+def whichdo_replay(scn, c):
+    w = c['witness']
+    mk = ':'
+    if w['existing']:
+        rel = os.path.relpath(w['existing'], '/p/w')
+        mk = 'mkdir -p "$(dirname %s)"; echo : > %s' % (rel, rel)
+    rc, out = scn.run({}, WHICHDO_SCENARIO.replace('@MK@', mk).replace('@TARGET@', w['target']), timeout=60)
+    c['scenario_output'] = out[-1500:]
+    lines = [l[5:] for l in out.split('\n') if l.startswith('LINE=')]
+    rcs = [l[3:] for l in out.split('\n') if l.startswith('rc=')]
+    # candidates above the scratch project exist on the real disk or not regardless of us: compare up to the project root
+    exp = [e for e in w['expect']]
+    n = len([e for e in exp if not e.startswith('../../..')])
+    bad = lines[:n] != exp[:n] or (w['expect_ok'] and rcs != ['0'])
+    return bad, 'real redo-whichdo prints %r (rc %s); documented %r' % (lines, rcs, exp)
+
+
 def native_candidates(rep, paths, release=False):
     payload, raw, rc = rep.run('paths', 'possible_batch', [bytes(p).hex() for p in paths], release=release)
     if len(payload) != len(paths):
@@ -410,7 +503,21 @@ try:
         for n in ((1, 2, 3) if chk.thorough() else (2,)):
             order_obligation(0, n, tpl)
     find_do_file_obligation()
+    # how the chosen script is invoked: the real child closure of BuildJob::start_self up to execvp
+    from specs import buildworld, buildjob
+    from lib.scenario import Scenario
+    buildworld.install(eng)
+    chk.assumptions += ['script invocation: the closure that BuildJob::start_self hands to JobServerHandle::start is executed at the '
+                        'point of the (modelled) fork; dup2/close_on_exec/signal are events; 9 target/.do shapes x verbose x #!']
+    buildjob.script_arguments(chk, 'C13')
+    whichdo_obligation()
+    scn = Scenario(log)
     validate(rep)
-    chk.finish(make_replay(rep))
+    _r13 = make_replay(rep)
+    _rbj = buildjob.make_replay(chk, rep, scn)
+    try:
+        chk.finish(lambda c: _rbj(c) if c.get('kind') == 'argv' else (whichdo_replay(scn, c) if c.get('kind') == 'whichdo' else _r13(c)))
+    finally:
+        scn.cleanup()
 finally:
     rep.cleanup()
